@@ -36,6 +36,7 @@ def handle (line : String) : String :=
   | "filter" :: rest => filterLine (" ".intercalate rest)
   | "reach" :: rest => reachLine (" ".intercalate rest)
   | "nameops" :: rest => nameopsLine (" ".intercalate rest)
+  | "namesok" :: rest => namesokLine (" ".intercalate rest)
   | "c05witness" :: rest => c05witnessLine (" ".intercalate rest)
   | "wt" :: rest => wtLine (" ".intercalate rest)
   | "c17witness" :: rest => c17witnessLine (" ".intercalate rest)
